@@ -287,6 +287,10 @@ pub fn run_spaces(spaces: &[Space], visit: Visitor) -> (Acc, Vec<SpaceReport>) {
                         continue;
                     }
                 };
+                if !rootp.sane() {
+                    total.errors.push(format!("BFS root {} is not a sane position (harness configuration error)", root));
+                    continue;
+                }
                 let (acc, layers, complete) = bfs(&rootp, *depth, *expand_cap, &name, visit);
                 note = format!("layers {:?}{}", layers, if depth.is_none() { if complete { " (fixpoint reached)" } else { " (NOT complete)" } } else { "" });
                 total.merge(acc);
